@@ -32,7 +32,7 @@ ASSUMPTIONS = ['0 <= lb < ub <= Nyquist; fir/iir series longer than 3*(order+1) 
                'bins whose true frequency is within 1e-9 (relative) of a band edge are not judged by the oracle',
                'FIR/IIR pass/stop behaviour is NUMERIC ONLY (probe sinusoids; gain within [0.75, 1.05] in band, < 0.05 out of band, |phase| < 0.05 rad): partial']
 TRUSTED_EXTRA = ['scipy.fftpack.fft/ifft = DFT / inverse DFT (model computes its own naive transform)',
-                 'scipy.signal.filtfilt = some linear map (hypothesis of filtfilt_wrapper_linear; monitored by the metamorphic linearity check)',
+                 'scipy.signal.filtfilt(b, a, x) = Model/FiltFilt.lean (odd padding of 3*max(len a, len b) samples, two direct-form-II-transposed passes started from lfilter_zi*edge sample, trimming): compared with the real FilterAnalyzer.filtfilt on every run (op ffmodel, rtol 1e-8); lfilter_zi(b, a) is taken from scipy as data (it does not depend on the signal)',
                  'scipy.signal.firwin / iirdesign: opaque designs; only their arguments are modelled',
                  'np.convolve, np.ceil, np.mean by their numpy semantics',
                  'Generated/SeriesCalls.lean (harness/translate_c15.py) as the reading of the ts.TimeSeries(...) call sites',
@@ -221,7 +221,7 @@ def cases(rng, tier, seed):
     out = []
     ncfg = 1000 if big else 120       # per method
     from scipy import signal
-    _, FA = nt()
+    ts, FA = nt()
     for method in METHODS:
         for i in range(ncfg):
             cfg = gen_cfg(rng, nr, method, tier, i)
@@ -272,6 +272,42 @@ def cases(rng, tier, seed):
                         raw = signal.filtfilt(b, a, din[c])
                         out.append(Case('C18 restoredc %s %s' % (flist(din[c]), flist(raw)), 'ok ' + flist(d2[c]), 'filtfilt/wrapper',
                                         cmp=cmp_vec(), meta=dict(meta, ch=c, wrapper={'b': b.tolist(), 'a': a.tolist()})))
+    # ---- scipy.signal.filtfilt ITSELF against its model (Model/FiltFilt.lean: odd padding, two direct-form-II-transposed
+    # passes started from zi*edge, trimming), through the public FilterAnalyzer.filtfilt wrapper: real FIR designs
+    # (firwin, as `fir` uses them, incl. the spectral inversion) and low-order IIR designs; zi = lfilter_zi is data
+    for i in range(60 if big else 14):
+        n = rng.randint(20, 200 if big else 70)
+        nch = rng.choice([1, 1, 2])
+        x = nr.standard_normal((nch, n)) * 10.0 ** rng.randint(-3, 3) + nr.uniform(-5, 5)
+        kind = rng.choice(['firlow', 'firhigh', 'iir', 'rand'])
+        if kind in ('firlow', 'firhigh'):
+            ntaps = 2 * rng.randint(1, max(1, min(8, (n - 2) // 6 - 1))) + 1
+            b = signal.firwin(ntaps, rng.uniform(0.1, 0.8))
+            if kind == 'firhigh':
+                b = -b
+                b[ntaps // 2] += 1
+            a = np.array([1.0])
+        elif kind == 'iir':
+            b, a = signal.butter(rng.randint(1, 3), rng.uniform(0.15, 0.7), btype=rng.choice(['low', 'high']))
+        else:
+            b = nr.uniform(-1, 1, rng.randint(2, 5))
+            a = np.array([1.0, nr.uniform(-0.5, 0.5)])
+        K = max(len(a), len(b))
+        if n <= 3 * K + 1:
+            continue
+        bn = np.r_[b / a[0], np.zeros(K - len(b))]
+        an = np.r_[a / a[0], np.zeros(K - len(a))]
+        zi = signal.lfilter_zi(b, a)
+        T = ts.TimeSeries(x if nch > 1 else x[0], sampling_interval=rng.choice([0.5, 1.0, 2.0]))
+        r2 = common.call(lambda: FA(T).filtfilt(b, a))
+        meta = {'kind': 'ffmodel', 'design': kind, 'b': b.tolist(), 'a': a.tolist(), 'n': n, 'nch': nch}
+        if isinstance(r2, str):
+            out.append(Case('C18 ffmodel - - - 0 -', r2, 'filtfilt/model', meta=meta))
+            continue
+        d2 = rows(r2.data)
+        c = rng.randrange(nch)
+        out.append(Case('C18 ffmodel %s %s %s %d %s' % (flist(bn), flist(an), flist(zi), 3 * K, flist(rows(T.data)[c])),
+                        'ok ' + flist(d2[c]), 'filtfilt/model/' + kind, cmp=cmp_vec(1e-8), meta=dict(meta, ch=c)))
     # ---- fir guard: out-of-range bands must be refused
     for i in range(40 if big else 8):
         cfg = gen_cfg(rng, nr, 'fir', tier, i)
